@@ -13,6 +13,8 @@ LEVEL = {
  "C13": ("bounded symbolic model checking of metadata block accounting against an adversarial peer (3 steps, <=3 blocks)", "4 C13"),
  "C16": ("one inductive step of Tier.Announce from every reachable stored index (symbolic), tier size 1..4", "4 C16"),
  "C18": ("bounded symbolic model checking of the segment tree (build+query) against the union-of-ranges definition for arbitrary 32-bit endpoints", "4 C18"),
+ "C15": ("bounded symbolic model checking of the UDP announce packet construction against the BEP 15 byte layout written independently (all field values symbolic)", "4 C15"),
+ "C08": ("bounded symbolic model checking of the input-validation units a peer's bytes reach first (bitfield construction, metadata block accounting, compact address decoding): arbitrary bytes/fields within the stated sizes never panic and are rejected or consistent. The stream reader and the message handlers are not covered yet.", "4 C08"),
 }
 NOTE = "trusted base: go/packages+go/ssa (x/tools v0.50.0) reading of the source, the engine's instruction semantics (validated by native replay of sampled paths and of every counterexample), z3 4.8.12 / z3 5.1.0 / cvc5 1.0.3; named stubs listed in the evidence file; bounds as stated per harness in the evidence; anything beyond the bounds is outside the claim"
 
